@@ -211,6 +211,8 @@ class ContractInterp(Interp):
                 base = base.val
             if isinstance(base, VObj):
                 return ("field", base, node.attr)
+            if getattr(base, "kind", "") == "redis":
+                return ("raw", base, node.attr)
             raise Unsupported(f"location {expr}: base is {base!r}")
         if isinstance(node, ast.Name):
             v = env.get(node.id)
@@ -280,6 +282,9 @@ class ContractInterp(Interp):
                 if old is None:
                     continue        # a ghost the function under verification does not declare: not observed here
                 self.st.ghost[r[1]] = self.havoc_value(old, None, "ghost." + r[1])
+            elif r[0] == "raw":
+                cur = self.st.heap[(r[1].ref, r[2])]
+                self.st.heap[(r[1].ref, r[2])] = self.st.fresh(r[2], cur.sort())
             elif r[0] == "field":
                 _, o, attr = r
                 t = self.tenv.fields_of(o.cls).get(attr)
@@ -304,6 +309,8 @@ class ContractInterp(Interp):
                 if isinstance(v, (VSeq, VSet, VMap, VList, VDict)):
                     for sub in ("seq", "set", "dom", "val", "items"):
                         keys.add((v.ref, sub))
+            elif r[0] == "raw":
+                keys.add((r[1].ref, r[2]))
             elif r[0] == "coll":
                 for sub in ("seq", "set", "dom", "val", "items"):
                     keys.add((r[1].ref, sub))
